@@ -492,7 +492,10 @@ func safeEval[C any](eval func(C, *Obs) error, c C, o *Obs) (err error) {
 			}
 		}
 	}()
-	return eval(c, o)
+	if err = eval(c, o); err == nil {
+		err = netsIntact()
+	}
+	return err
 }
 
 func trimStack(st string) string {
